@@ -229,7 +229,7 @@ def leaf_laws(U, rep):
               construct='dp_p_pos, dp_c_pos = p * mass_inv[0], -p * mass_inv[1] (+ static friction)  [4 GF(p) trials]')
 
 
-def momentum(U, rep, tier):
+def momentum(U, rep, tier, only=None):
   cases = [('spring', 'chain f-1-1, actuators, limits', chain_system),
            ('spring', 'two free bodies, two contacts', two_body_system),
            ('spring', 'star: free root with three children and a grandchild', star_system),
@@ -244,6 +244,8 @@ def momentum(U, rep, tier):
   trials = 3 if tier == 'quick' else 12
   finite = lambda nm: 0 if nm.kind == 'isnan' else None
   for backend, name, build in cases:
+    if only is not None and build.__name__ not in only:
+      continue
     f = U.func('brax.%s.pipeline.step' % backend)
     bad = None
     calls = 0
@@ -457,6 +459,12 @@ def run(U, rep, tier):
   # bounded universe (shared with C01 R1.2)
   from braxlint.props import c01
   c01.scan_spec(U, rep, tier, rule='R4.6')
+  # R4.7: at rest inside its limits the generalized pipeline's limit rows vanish -- also when a free link is listed
+  # before / after / between the limited ones (q index != qd index); the solver is outside the fragment, its input is not
+  # (shared with C06 R6.2)
+  from braxlint.props import c06
+  from braxlint.props.c16 import _Relabel
+  c06.generalized_limits(U, _Relabel(rep, 'R4.7'))
   try:
     one_mass(U, _Hints(rep))
   except AnalysisError as e:
